@@ -199,12 +199,13 @@ func (msg *message) bodySection(item *imap.FetchItemBodySection) []byte {
 	// Extract partial if any
 	b := buf.Bytes()
 	if partial := item.Partial; partial != nil {
-		end := partial.Offset + partial.Size
-		if partial.Offset > int64(len(b)) {
+		if partial.Offset < 0 || partial.Offset > int64(len(b)) {
 			return nil
 		}
-		if end > int64(len(b)) {
-			end = int64(len(b))
+		// Offset+Size may overflow: compare Size with what is left instead
+		end := int64(len(b))
+		if partial.Size >= 0 && partial.Size < end-partial.Offset {
+			end = partial.Offset + partial.Size
 		}
 		b = b[partial.Offset:end]
 	}
